@@ -55,7 +55,8 @@ Definition ST_LOGGED : Z := 4.
 
 Record ffile := mkff {
   f_name : name; f_renamed : name; f_prev : name; f_size : Z; f_hash : name;
-  f_state : Z; f_logged : Z; f_timer : bool; f_next : bool }.
+  f_state : Z; f_logged : Z; f_timer : bool; f_next : bool;
+  f_batch : Z               (* > 0: loaded from the log by that buildCache batch and not re-cached since *) }.
 
 Record lrec := mklr { l_name : name; l_renamed : name; l_hash : name; l_size : Z; l_time : Z }.
 
@@ -74,30 +75,33 @@ Record stage := mkst {
   fq : list nat;
   ctime : Z;
   ready : bool;
-  flcks : list (name * list Z)     (* <target>.lck left in the final directory by a crash inside fileutil.Move *)
+  flcks : list (name * list Z);    (* <target>.lck left in the final directory by a crash inside fileutil.Move *)
+  ctimes : list (Z * Z);           (* cacheTimes: (batch id, time) of every buildCache that visited a record *)
+  nbatch : Z
 }.
 
-Definition init_stage : stage := mkst [] [] [] [] [] [] [] [] [] [] [] [] 0 true [].
+Definition init_stage : stage := mkst [] [] [] [] [] [] [] [] [] [] [] [] 0 true [] [] 0.
 
 (* field setters *)
-Definition set_parts v s := mkst v (fulls s) (waits s) (cmps s) (finals s) (rlog s) (heap s) (cache s) (wait s) (locks s) (vq s) (fq s) (ctime s) (ready s) (flcks s).
-Definition set_fulls v s := mkst (parts s) v (waits s) (cmps s) (finals s) (rlog s) (heap s) (cache s) (wait s) (locks s) (vq s) (fq s) (ctime s) (ready s) (flcks s).
-Definition set_waits v s := mkst (parts s) (fulls s) v (cmps s) (finals s) (rlog s) (heap s) (cache s) (wait s) (locks s) (vq s) (fq s) (ctime s) (ready s) (flcks s).
-Definition set_cmps v s := mkst (parts s) (fulls s) (waits s) v (finals s) (rlog s) (heap s) (cache s) (wait s) (locks s) (vq s) (fq s) (ctime s) (ready s) (flcks s).
-Definition set_finals v s := mkst (parts s) (fulls s) (waits s) (cmps s) v (rlog s) (heap s) (cache s) (wait s) (locks s) (vq s) (fq s) (ctime s) (ready s) (flcks s).
-Definition set_rlog v s := mkst (parts s) (fulls s) (waits s) (cmps s) (finals s) v (heap s) (cache s) (wait s) (locks s) (vq s) (fq s) (ctime s) (ready s) (flcks s).
-Definition set_heap v s := mkst (parts s) (fulls s) (waits s) (cmps s) (finals s) (rlog s) v (cache s) (wait s) (locks s) (vq s) (fq s) (ctime s) (ready s) (flcks s).
-Definition set_cache v s := mkst (parts s) (fulls s) (waits s) (cmps s) (finals s) (rlog s) (heap s) v (wait s) (locks s) (vq s) (fq s) (ctime s) (ready s) (flcks s).
-Definition set_wait v s := mkst (parts s) (fulls s) (waits s) (cmps s) (finals s) (rlog s) (heap s) (cache s) v (locks s) (vq s) (fq s) (ctime s) (ready s) (flcks s).
-Definition set_locks v s := mkst (parts s) (fulls s) (waits s) (cmps s) (finals s) (rlog s) (heap s) (cache s) (wait s) v (vq s) (fq s) (ctime s) (ready s) (flcks s).
-Definition set_vq v s := mkst (parts s) (fulls s) (waits s) (cmps s) (finals s) (rlog s) (heap s) (cache s) (wait s) (locks s) v (fq s) (ctime s) (ready s) (flcks s).
-Definition set_fq v s := mkst (parts s) (fulls s) (waits s) (cmps s) (finals s) (rlog s) (heap s) (cache s) (wait s) (locks s) (vq s) v (ctime s) (ready s) (flcks s).
-Definition set_ctime v s := mkst (parts s) (fulls s) (waits s) (cmps s) (finals s) (rlog s) (heap s) (cache s) (wait s) (locks s) (vq s) (fq s) v (ready s) (flcks s).
-Definition set_ready v s := mkst (parts s) (fulls s) (waits s) (cmps s) (finals s) (rlog s) (heap s) (cache s) (wait s) (locks s) (vq s) (fq s) (ctime s) v (flcks s).
+Definition set_parts v s := mkst v (fulls s) (waits s) (cmps s) (finals s) (rlog s) (heap s) (cache s) (wait s) (locks s) (vq s) (fq s) (ctime s) (ready s) (flcks s) (ctimes s) (nbatch s).
+Definition set_fulls v s := mkst (parts s) v (waits s) (cmps s) (finals s) (rlog s) (heap s) (cache s) (wait s) (locks s) (vq s) (fq s) (ctime s) (ready s) (flcks s) (ctimes s) (nbatch s).
+Definition set_waits v s := mkst (parts s) (fulls s) v (cmps s) (finals s) (rlog s) (heap s) (cache s) (wait s) (locks s) (vq s) (fq s) (ctime s) (ready s) (flcks s) (ctimes s) (nbatch s).
+Definition set_cmps v s := mkst (parts s) (fulls s) (waits s) v (finals s) (rlog s) (heap s) (cache s) (wait s) (locks s) (vq s) (fq s) (ctime s) (ready s) (flcks s) (ctimes s) (nbatch s).
+Definition set_finals v s := mkst (parts s) (fulls s) (waits s) (cmps s) v (rlog s) (heap s) (cache s) (wait s) (locks s) (vq s) (fq s) (ctime s) (ready s) (flcks s) (ctimes s) (nbatch s).
+Definition set_rlog v s := mkst (parts s) (fulls s) (waits s) (cmps s) (finals s) v (heap s) (cache s) (wait s) (locks s) (vq s) (fq s) (ctime s) (ready s) (flcks s) (ctimes s) (nbatch s).
+Definition set_heap v s := mkst (parts s) (fulls s) (waits s) (cmps s) (finals s) (rlog s) v (cache s) (wait s) (locks s) (vq s) (fq s) (ctime s) (ready s) (flcks s) (ctimes s) (nbatch s).
+Definition set_cache v s := mkst (parts s) (fulls s) (waits s) (cmps s) (finals s) (rlog s) (heap s) v (wait s) (locks s) (vq s) (fq s) (ctime s) (ready s) (flcks s) (ctimes s) (nbatch s).
+Definition set_wait v s := mkst (parts s) (fulls s) (waits s) (cmps s) (finals s) (rlog s) (heap s) (cache s) v (locks s) (vq s) (fq s) (ctime s) (ready s) (flcks s) (ctimes s) (nbatch s).
+Definition set_locks v s := mkst (parts s) (fulls s) (waits s) (cmps s) (finals s) (rlog s) (heap s) (cache s) (wait s) v (vq s) (fq s) (ctime s) (ready s) (flcks s) (ctimes s) (nbatch s).
+Definition set_vq v s := mkst (parts s) (fulls s) (waits s) (cmps s) (finals s) (rlog s) (heap s) (cache s) (wait s) (locks s) v (fq s) (ctime s) (ready s) (flcks s) (ctimes s) (nbatch s).
+Definition set_fq v s := mkst (parts s) (fulls s) (waits s) (cmps s) (finals s) (rlog s) (heap s) (cache s) (wait s) (locks s) (vq s) v (ctime s) (ready s) (flcks s) (ctimes s) (nbatch s).
+Definition set_ctime v s := mkst (parts s) (fulls s) (waits s) (cmps s) (finals s) (rlog s) (heap s) (cache s) (wait s) (locks s) (vq s) (fq s) v (ready s) (flcks s) (ctimes s) (nbatch s).
+Definition set_ready v s := mkst (parts s) (fulls s) (waits s) (cmps s) (finals s) (rlog s) (heap s) (cache s) (wait s) (locks s) (vq s) (fq s) (ctime s) v (flcks s) (ctimes s) (nbatch s).
+Definition set_flcks v s := mkst (parts s) (fulls s) (waits s) (cmps s) (finals s) (rlog s) (heap s) (cache s) (wait s) (locks s) (vq s) (fq s) (ctime s) (ready s) v (ctimes s) (nbatch s).
+Definition set_ctimes v s := mkst (parts s) (fulls s) (waits s) (cmps s) (finals s) (rlog s) (heap s) (cache s) (wait s) (locks s) (vq s) (fq s) (ctime s) (ready s) (flcks s) v (nbatch s).
+Definition set_nbatch v s := mkst (parts s) (fulls s) (waits s) (cmps s) (finals s) (rlog s) (heap s) (cache s) (wait s) (locks s) (vq s) (fq s) (ctime s) (ready s) (flcks s) (ctimes s) v.
 
-Definition set_flcks v s := mkst (parts s) (fulls s) (waits s) (cmps s) (finals s) (rlog s) (heap s) (cache s) (wait s) (locks s) (vq s) (fq s) (ctime s) (ready s) v.
-
-Definition dflt_ff : ffile := mkff [] [] [] 0 [] ST_UNKNOWN 0 false false.
+Definition dflt_ff : ffile := mkff [] [] [] 0 [] ST_UNKNOWN 0 false false 0.
 Definition obj (s : stage) (o : nat) : ffile := nth o (heap s) dflt_ff.
 
 Fixpoint list_set {A} (l : list A) (i : nat) (v : A) : list A :=
@@ -110,15 +114,17 @@ Fixpoint list_set {A} (l : list A) (i : nat) (v : A) : list A :=
 Definition set_obj (s : stage) (o : nat) (f : ffile) : stage := set_heap (list_set (heap s) o f) s.
 
 Definition with_state (f : ffile) (st : Z) : ffile :=
-  mkff (f_name f) (f_renamed f) (f_prev f) (f_size f) (f_hash f) st (f_logged f) (f_timer f) (f_next f).
+  mkff (f_name f) (f_renamed f) (f_prev f) (f_size f) (f_hash f) st (f_logged f) (f_timer f) (f_next f) (f_batch f).
 Definition with_logged (f : ffile) (t : Z) : ffile :=
-  mkff (f_name f) (f_renamed f) (f_prev f) (f_size f) (f_hash f) (f_state f) t (f_timer f) (f_next f).
+  mkff (f_name f) (f_renamed f) (f_prev f) (f_size f) (f_hash f) (f_state f) t (f_timer f) (f_next f) (f_batch f).
 Definition with_timer (f : ffile) (b : bool) : ffile :=
-  mkff (f_name f) (f_renamed f) (f_prev f) (f_size f) (f_hash f) (f_state f) (f_logged f) b (f_next f).
+  mkff (f_name f) (f_renamed f) (f_prev f) (f_size f) (f_hash f) (f_state f) (f_logged f) b (f_next f) (f_batch f).
 Definition with_next (f : ffile) (b : bool) : ffile :=
-  mkff (f_name f) (f_renamed f) (f_prev f) (f_size f) (f_hash f) (f_state f) (f_logged f) (f_timer f) b.
+  mkff (f_name f) (f_renamed f) (f_prev f) (f_size f) (f_hash f) (f_state f) (f_logged f) (f_timer f) b (f_batch f).
 Definition with_prev (f : ffile) (p : name) : ffile :=
-  mkff (f_name f) (f_renamed f) p (f_size f) (f_hash f) (f_state f) (f_logged f) (f_timer f) (f_next f).
+  mkff (f_name f) (f_renamed f) p (f_size f) (f_hash f) (f_state f) (f_logged f) (f_timer f) (f_next f) (f_batch f).
+Definition with_batch (f : ffile) (b : Z) : ffile :=
+  mkff (f_name f) (f_renamed f) (f_prev f) (f_size f) (f_hash f) (f_state f) (f_logged f) (f_timer f) (f_next f) b.
 
 Definition cache_obj (s : stage) (n : name) : option nat := alookup n (cache s).
 Definition cache_state (s : stage) (n : name) : Z :=
@@ -130,7 +136,7 @@ Definition cache_hash (s : stage) (n : name) : name :=
    of its path; cacheTime is initialised from the first logged file; a
    finalized file marks its predecessor's entry *)
 Definition to_cache (s : stage) (o : nat) (st : Z) : stage :=
-  let f := with_state (obj s o) st in
+  let f := with_batch (with_state (obj s o) st) 0 in
   let s1 := set_obj s o f in
   let s2 := if negb (f_logged f =? 0) && (ctime s1 =? 0) then set_ctime (f_logged f) s1 else s1 in
   let s3 := set_cache (aset (f_name f) o (cache s2)) s2 in
@@ -151,19 +157,37 @@ Definition log_has (s : stage) (n h : name) : bool :=
 
 (* buildCache(from): load log records of the days from [from] on, in order, up
    to the first record later than the current cacheTime *)
-Fixpoint load_records (s : stage) (recs : list lrec) (from ct : Z) : stage :=
+Fixpoint load_records (s : stage) (recs : list lrec) (from ct : Z) (bid : Z) : stage :=
   match recs with
   | [] => s
   | r :: rest =>
       if ct <? l_time r then s
       else
+        (* a name that is already cached is skipped - unless the entry is an older
+           record of that name loaded from the log (fix: remember the version put away last) *)
+        let superseded :=
+          match alookup (l_name r) (cache s) with
+          | Some o0 => (f_state (obj s o0) =? ST_LOGGED) && (f_logged (obj s o0) <=? l_time r)
+          | None => true
+          end in
         let s' :=
-          if (day_of (l_time r) <? day_of from) || ahas (l_name r) (cache s) then s
+          if (day_of (l_time r) <? day_of from) || negb superseded then s
           else
             let o := length (heap s) in
-            let f := mkff (l_name r) (l_renamed r) [] (l_size r) (l_hash r) ST_LOGGED (l_time r) false false in
+            let f := mkff (l_name r) (l_renamed r) [] (l_size r) (l_hash r) ST_LOGGED (l_time r) false false bid in
             set_cache (aset (l_name r) o (cache s)) (set_heap (heap s ++ [f]) s) in
-        load_records s' rest from ct
+        load_records s' rest from ct bid
+  end.
+
+(* did Parse hand a record to the callback at all (first record of a day inside the
+   window that is not later than the cache time)? *)
+Fixpoint visited_any (recs : list lrec) (from ct : Z) : bool :=
+  match recs with
+  | [] => false
+  | r :: rest =>
+      if ct <? l_time r then false
+      else if day_of (l_time r) <? day_of from then visited_any rest from ct
+      else true
   end.
 
 Definition build_cache (s : stage) (now from : Z) : stage :=
@@ -171,7 +195,57 @@ Definition build_cache (s : stage) (now from : Z) : stage :=
   else if negb (ctime s =? 0) && (ctime s <=? from) then s
   else
     let ct := if ctime s =? 0 then now else ctime s in
-    set_ctime from (load_records s (rlog s) from ct).
+    let bid := nbatch s + 1 in
+    let s1 := load_records s (rlog s) from ct bid in
+    let s2 := if visited_any (rlog s) from ct
+              then set_nbatch bid (set_ctimes (ctimes s1 ++ [(bid, now)]) s1) else s1 in
+    set_ctime from s2.
+
+(* cleanCache: batches loaded from the log more than an hour ago expire in order;
+   an entry that is put away (and whose successor, if it names one, is too) and was
+   logged more than a day ago leaves the cache - when batches expire, only the
+   entries those batches loaded; cacheTime becomes the earliest logged time of the
+   entries that stay *)
+Definition CACHE_AGE_LOADED : Z := 3600.
+Definition CACHE_AGE_LOGGED : Z := 86400.
+
+Fixpoint expired_batches (l : list (Z * Z)) (now : Z) : list (Z * Z) * list (Z * Z) :=
+  match l with
+  | [] => ([], [])
+  | (b, t) :: r =>
+      if now - t <? CACHE_AGE_LOADED then ([], l)
+      else let '(e, k) := expired_batches r now in ((b, t) :: e, k)
+  end.
+
+Definition clean_cache_entry (now : Z) (batches : list (Z * Z)) (acc : stage) (kv : name * nat) : stage :=
+  let f := obj acc (snd kv) in
+  if f_state f <? ST_FINALIZED then acc
+  else if negb (match f_prev f with [] => true | _ => false end) && negb (f_next f) then acc
+  else
+    let old := CACHE_AGE_LOGGED <? now - f_logged f in
+    let drop := old &&
+                (match batches with
+                 | [] => true
+                 | _ => existsb (fun bt => fst bt =? f_batch f) batches && (f_state f =? ST_LOGGED)
+                 end) in
+    if drop then set_cache (aremove (fst kv) (cache acc)) acc
+    else if f_logged f <? ctime acc then set_ctime (f_logged f) acc else acc.
+
+Definition clean_cache (s : stage) (now : Z) : stage :=
+  let '(batches, keep) := expired_batches (ctimes s) now in
+  let s1 := set_ctime now (set_ctimes keep s) in
+  fold_left (clean_cache_entry now batches) (cache s) s1.
+
+(* the harness's "d seconds pass" (d a multiple of a day): every time the receiver
+   remembers or has written moves d into the past *)
+Definition shift_rec (d : Z) (r : lrec) : lrec := mklr (l_name r) (l_renamed r) (l_hash r) (l_size r) (l_time r - d).
+Definition shift_obj (d : Z) (f : ffile) : ffile :=
+  if f_logged f =? 0 then f else with_logged f (f_logged f - d).
+Definition age_all (s : stage) (d : Z) : stage :=
+  let s1 := set_rlog (map (shift_rec d) (rlog s)) s in
+  let s2 := set_heap (map (shift_obj d) (heap s1)) s1 in
+  let s3 := if ctime s2 =? 0 then s2 else set_ctime (ctime s2 - d) s2 in
+  set_ctimes (map (fun bt => (fst bt, snd bt - d)) (ctimes s3)) s3.
 
 (* ---- Prepare ---------------------------------------------------------------- *)
 Fixpoint zeros (n : nat) : list Z := match n with O => [] | S k => 0 :: zeros k end.
@@ -236,7 +310,7 @@ Definition receive (s : stage) (p : part_req) (data : list Z) (rerr : bool) : st
           else
             let s4 := set_fulls (aset n d' (fulls s3)) (set_parts (aremove n (parts s3)) s3) in
             let o := length (heap s4) in
-            let f := mkff n (p_renamed p) (p_prev p) (p_size p) (p_hash p) ST_RECEIVED 0 false false in
+            let f := mkff n (p_renamed p) (p_prev p) (p_size p) (p_hash p) ST_RECEIVED 0 false false 0 in
             let s5 := to_cache (set_heap (heap s4 ++ [f]) s4) o ST_RECEIVED in
             (set_vq (vq s5 ++ [o]) s5, true)
         else (s3, true)
@@ -450,10 +524,10 @@ Definition timers_fire (s : stage) : stage :=
 
 (* ---- restart: process death at quiescence, New, Recover ----------------------- *)
 Definition crash (s : stage) : stage :=
-  mkst (parts s) (fulls s) (waits s) (cmps s) (finals s) (rlog s) [] [] [] [] [] [] 0 true (flcks s).
+  mkst (parts s) (fulls s) (waits s) (cmps s) (finals s) (rlog s) [] [] [] [] [] [] 0 true (flcks s) [] 0.
 
 Definition comp_to_obj (n : name) (c : comp) (st : Z) : ffile :=
-  mkff n (c_renamed c) (c_prev c) (c_size c) (c_hash c) st 0 false false.
+  mkff n (c_renamed c) (c_prev c) (c_size c) (c_hash c) st 0 false false 0.
 
 Definition recover_one (acc : stage * list nat * list nat) (kv : name * comp)
   : stage * list nat * list nat :=
@@ -515,7 +589,9 @@ Inductive sop :=
 | ORestart (now : Z)
 | OAge (n : name)                       (* the partial's mtime becomes older than the cleaning age *)
 | OTamper (n : name) (ext : Z) (data : list Z)   (* overwrite a staged body: 0 part 1 full 2 wait *)
-| OImage (img : stage).                         (* process death: the durable state found on disk, volatile state gone *)
+| OImage (img : stage)                          (* process death: the durable state found on disk, volatile state gone *)
+| OCleanCache (now : Z)                         (* cleanCache (runs after every 1000th cache entry) *)
+| OAgeAll (d : Z).                              (* d seconds pass *)
 
 Inductive sout :=
 | RNone | RBool (b : bool) | RNum (z : Z) | RScan (l : list (name * comp)).
@@ -543,4 +619,6 @@ Definition sstep (H : list Z -> name) (s : stage) (op : sop) : stage * sout :=
           (if ahas n (fulls s) then set_fulls (aset n d (fulls s)) s else s)
         else (if ahas n (waits s) then set_waits (aset n d (waits s)) s else s)), RNone)
   | OImage img => (crash img, RNone)
+  | OCleanCache now => (clean_cache s now, RNone)
+  | OAgeAll d => (age_all s d, RNone)
   end.
